@@ -1,2 +1,8 @@
 import OrixModel.Scalar
 import OrixModel.Quat
+import OrixModel.Conv
+import OrixModel.ConvSpec
+import OrixModel.Group
+import OrixModel.PhaseList
+import OrixModel.XMap
+import OrixModel.NDArray
